@@ -626,5 +626,5 @@ pub fn run(rep: &Report) {
     );
     rep.assume("EGraph::query is compared as a set (projections may legitimately repeat)");
     rep.run_regressions(&C02);
-    rep.explore(&C02, rep.tier.pick(3000, 60_000), 3000);
+    rep.explore(&C02, rep.tier.pick(9000, 60_000), 3000);
 }
